@@ -8509,8 +8509,8 @@ S_<TN_, TA_, TH_>::deepQuery(ConstControl& control,
 
 	ScopedCOrigin origin{control, STATE_ID};
 
-	(this->*method)(event, control);
 	Head::wideQuery(event, control);
+	(this->*method)(event, control);
 }
 
 #if HFSM2_PLANS_AVAILABLE()
